@@ -131,11 +131,12 @@ end Kodama
                    hypotheses; `C14_linkage_single_complete` unconditionally (single needs NO
                    hypothesis on the numbers at all, complete `OrderLaws` + NaN-free input).
 
-NOT proved: `ChainReducible` for Ward over IEEE floats (weighted: `Props/C14Weighted.lean`; Ward FALSE there, ~11% of tied
-updates; for AVERAGE it is a theorem since the `fix:` commit of the crate, `Props/C14Average.lean`:
-`C14_nnchain_average`, `C14_linkage_average`).  For these two methods on floats the bound rests on (i) the exact model/hook count
-correspondence and (ii) the oracle checking the bound on the real crate on adversarial inputs up to
-n = 2000; the measured worst case is 3.5 n².
+`ChainReducible` over IEEE floats: weighted: `Props/C14Weighted.lean`; for AVERAGE it is a theorem since
+the `fix:` commit of the crate, `Props/C14Average.lean`: `C14_nnchain_average`, `C14_linkage_average`;
+for WARD (false before: ~11% of tied updates) since the second `fix:` commit, `Props/C14Ward.lean`:
+`C14_nnchain_ward`, `C14_linkage_ward`.  Independently the bound is checked by (i) the exact model/hook
+count correspondence and (ii) the oracle on the real crate on adversarial inputs up to n = 2000; the
+measured worst case is 3.5 n².
 -/
 namespace Kodama
 variable {α : Type} [Num α]
